@@ -63,6 +63,29 @@ def permTr (rules : List PermRule) (pairs : List PairRule) (fin : List PermRule)
   | .ite c a b, .ite c' a' b' => c' == c && permTr rules pairs fin π a a' && permTr rules pairs fin π b b'
   | _, _ => false
 
+/-! ### a canonical order of nested comparisons
+
+Two conditional expressions in a row (`nu2 = … if nuEu0 == nuEu else …; nu3 = … if nuAs0 == nuAs else …`) give a tree that tests
+the first comparison at the root; the model at the permuted parameter vector tests the *other* one at the root.  `sortTr` moves
+the comparison with the smaller key to the root wherever both children test the same comparison — the meaning is unchanged in
+every interpretation (`runTr_sortTr`), and the two trees become comparable branch by branch. -/
+
+/-- order on comparisons between two bare parameters (by the codes of the names); anything else is not moved -/
+def condLt (c c' : Cond) : Bool :=
+  match c.lhs, c.rhs, c'.lhs, c'.rhs with
+  | .param l, .param r, .param l', .param r' => decide (l < l') || (l == l' && decide (r < r'))
+  | _, _, _, _ => false
+
+/-- `if c: a else: b` for two trees that are already in order -/
+def mkIte (c : Cond) : Tr → Tr → Tr
+  | .ite c1 x1 y1, .ite c2 x2 y2 =>
+      if c1 = c2 ∧ condLt c1 c = true then .ite c1 (mkIte c x1 x2) (mkIte c y1 y2) else .ite c (.ite c1 x1 y1) (.ite c2 x2 y2)
+  | a, b => .ite c a b
+
+def sortTr : Tr → Tr
+  | .leaf r => .leaf r
+  | .ite c a b => mkIte c (sortTr a) (sortTr b)
+
 /-- model `name` at the permuted parameter vector `args` is the `π`-relabelled model -/
 def permOK (tbl : List Model) (sigs : List Sig) (rules : List PermRule) (pairs : List PairRule) (fin : List PermRule)
     (name : Name) (π : List Nat) (args : List Expr) : Bool :=
@@ -70,7 +93,7 @@ def permOK (tbl : List Model) (sigs : List Sig) (rules : List PermRule) (pairs :
   | none => false
   | some m =>
       match normalForm tbl sigs name args, normalForm tbl sigs name (m.paramNames.map .param) with
-      | some ta, some tb => permTr rules pairs fin π tb ta
+      | some ta, some tb => permTr rules pairs fin π (sortTr tb) (sortTr ta)
       | _, _ => false
 
 /-! ## the rule table -/
